@@ -53,3 +53,6 @@ Definition map_results_eqb (m : err + list result) (real : list (nat * dict val 
                 Nat.eqb (res_status a) (fst (fst b)) && dict_eqb val_eqb (res_values a) (snd (fst b)) &&
                 opt_eqb Pos.eqb (res_err a) (snd b)) rs real
   end.
+
+Definition pause_eqb (a b : pause) : bool :=
+  list_eqb Pos.eqb (p_node a) (p_node b) && Pos.eqb (p_out a) (p_out b) && val_eqb (p_value a) (p_value b).
